@@ -316,6 +316,8 @@ def valid_prog(prog):
             return False
         if nd[0] == DER and nd[1] >= 3 and not valid_wrapper(prog, i):
             return False
+        if nd[0] == EFF and nd[1] == 5 and var_of(nd) == 3 and any(prog[j][0] in (MEMO, SEL) for j in cone(prog, i)):
+            return False      # ImmediateEffect::new_mut panics when it recurses (documented); through memos it does
     return True
 
 
@@ -905,6 +907,8 @@ def add_variants(rng, prog, p=0.5):
             nd.append(rng.randint(0, 4) + 8 * (0 if wrapped else rng.randint(0, 2)))
         elif nd[0] == EFF and nd[1] != 4:
             choices = {0: (1,), 1: (1, 2), 2: (1,), 3: (1,), 5: (1, 2)}[nd[1]]
+            if nd[1] == 5 and not any(prog[j][0] in (MEMO, SEL) for j in cone(prog, prog.index(nd))):
+                choices = (1, 2, 3, 3)      # new_mut: only where it cannot recurse
             par = nd[4] if len(nd) > 4 else -1
             nd[4:] = [par, rng.choice(choices)]
     return prog
